@@ -175,3 +175,34 @@ Theorem C06_concat_over_warm_caches : forall cs ws,
   chk_C06 (SConcat cs) (source (SConcat cs)) c10 c00 k10 k00 = 0.
 Proof. exact CompWarmConcat.C06_concat_warm_cls. Qed.
 Print Assumptions C06_concat_over_warm_caches.
+
+(* ---- the union class: children with combined-map leaves (SourceMapSource with an inner map),
+   cold and with caches in any warm state ---- *)
+From RS Require Proofs.CombLeafTree Proofs.WarmCombBounds Proofs.WarmCombDefs
+  Proofs.CompCombTree Proofs.CompWarm2Replace Proofs.CompWarm2Concat Proofs.CompWarm2Example.
+Theorem C06_checker_combined_leaves : forall s ws,
+  CompLinesTree.composite s = true -> CombLeafTree.rshape2 s = true -> treeA s = true ->
+  WarmCombBounds.tiny2 s = true ->
+  let '(c10, c00, k10, k00) := api_comp s ws in
+  bindings_consistent (flat_map contents_of_events k10) = true ->
+  chk_C06 s (source s) c10 c00 k10 k00 = 0.
+Proof. exact CompWarm2Example.C06_tree2_tiny. Qed.
+Print Assumptions C06_checker_combined_leaves.
+
+Theorem C06_replace_over_warm_caches_combined_leaves : forall inner rs ws,
+  ColdCache.ids_distinct inner -> k2_shape inner = false ->
+  CombLeafTree.rshape2 (ColdCache.uncache inner) = true -> treeA (SReplace inner rs) = true ->
+  WarmCombBounds.tiny2 (ColdCache.uncache (SReplace inner rs)) = true ->
+  let '(c10, c00, k10, k00) := api_comp (SReplace inner rs) ws in
+  bindings_consistent (flat_map contents_of_events k10) = true ->
+  chk_C06 (SReplace inner rs) (source (SReplace inner rs)) c10 c00 k10 k00 = 0.
+Proof. exact CompWarm2Replace.C06_replace_warm2_tiny. Qed.
+Print Assumptions C06_replace_over_warm_caches_combined_leaves.
+
+Theorem C06_concat_over_warm_caches_combined_leaves : forall cs ws,
+  ColdCache.ids_distinct (SConcat cs) -> WarmCombDefs.cls2 (SConcat cs) ->
+  let '(c10, c00, k10, k00) := api_comp (SConcat cs) ws in
+  bindings_consistent (flat_map contents_of_events k10) = true ->
+  chk_C06 (SConcat cs) (source (SConcat cs)) c10 c00 k10 k00 = 0.
+Proof. exact CompWarm2Concat.C06_concat_warm2_cls. Qed.
+Print Assumptions C06_concat_over_warm_caches_combined_leaves.
